@@ -29,6 +29,17 @@ LAYOUTS = {1: [P[0]], 9: L9, 13: L13, 14: L9 + TOT, 18: L13 + TOT}
 SCALE = {**{k: -3 for k in IL}, **{k: -1 for k in UL}}
 
 
+def _orders_register(term):
+    """the branch condition is an ordering / equality test of a symbolic register (typed int symbol) against a constant"""
+    from sa.sveval import Res as _R
+    if isinstance(term, _R) and term.op in ("Lt", "LtE", "Gt", "GtE", "Eq", "NotEq") and len(term.args) == 2:
+        a, b = term.args
+        sym = a if isinstance(a, _R) else b
+        other = b if sym is a else a
+        return isinstance(sym, _R) and getattr(sym, "pytype", None) == "int" and isinstance(other, (int, float)) and not isinstance(other, bool)
+    return False
+
+
 def check(src, rep):
     M = Model(src)
     ce = ConstEval(M)
@@ -103,6 +114,10 @@ def check(src, rep):
             f_, arg = wrap(body, which)
             res = AE.apply(f_, [arg])
             desc = f"{which} with a positional list of {n} elements"
+            if res[0] == "branch" and _orders_register(res[1]):
+                Vio("R2", "value-dependent-scaling", "how a register is scaled depends on the magnitude of the register value itself (a comparison of the transmitted number with a constant), not only on the "
+                    "field it is: some values of the register's range are stored with another scale", f"{desc}: condition {res[1]!r}"[:200])
+                continue
             if res[0] in ("undecided", "branch"):
                 und = f"{desc}: {res[1]!r}"
                 break
@@ -172,6 +187,10 @@ def check(src, rep):
             f_, arg = wrap(body, which)
             res = AE.apply(f_, [arg])
             desc = f"{which} with an OBIS-tagged list"
+            if res[0] == "branch" and _orders_register(res[1]):
+                Vio("R2", "value-dependent-scaling", "how a register is scaled depends on the magnitude of the register value itself (a comparison of the transmitted number with a constant), not only on the "
+                    "field it is: some values of the register's range are stored with another scale", f"{desc}: condition {res[1]!r}"[:200])
+                continue
             if res[0] in ("undecided", "branch"):
                 und = f"{desc}: {res[1]!r}"
                 break
@@ -248,6 +267,17 @@ def check(src, rep):
         rep.ok("R5", "dispatch / shared grammars", "frame and body alternatives wrap the same two body grammars, each tagging itself with its own type")
     elif not shared:
         rep.violation("R5", "kaifa", "frame-body", "frame and bare-body grammars do not share the body grammars", file, 1)
+    else:
+        from sa.decoders import parse_target_sets
+        ts_ = parse_target_sets(M, MOD)
+        for fname_, want_ in (("decode_frame_content", "LlcPdu"), ("decode_notification_body", "NotificationBody")):
+            got_ = ts_.get(fname_)
+            if got_ and got_ != {want_}:
+                fn_ = M.funcs.get(f"{MOD}.{fname_}")
+                rep.violation("R5", f"kaifa.{fname_}", "parse-target", f"{fname_} does not leave the choice of the list layout to the {want_} grammar (it parses with {sorted(got_)}): frame and bare-body "
+                              "decoding can disagree, and a layout picked from a few octets rejects lists the grammar accepts", file, fn_.node.lineno if fn_ else 1)
+            elif not got_:
+                rep.undecide(f"R5 cannot see which grammar {fname_} parses its input with")
     from sa.decoders import octet_string_text_finding
     otf = octet_string_text_finding(w)
     if otf:
